@@ -307,11 +307,20 @@ func TestC01(t *testing.T) {
 		if c.Chance("endpointBurst", 1, 4) {
 			node := cl.Nodes[c.Pick("burstNode", N)]
 			k := c.Int("burstSize", 25, 60)
+			// one of the ids may be very long: its routing entry nearly fills a gossip packet
+			longID := 0
+			if c.Bool("veryLongEndpointID") {
+				longID = c.Int("longIDLength", 1135, 1180)
+				c.Class("very-long-endpoint-id")
+			}
 			var wg sync.WaitGroup
 			errs := make(chan error, k)
 			var bmu sync.Mutex
 			for i := 0; i < k; i++ {
 				ep := fmt.Sprintf("burst-%d-%s", i, strings.Repeat("x", (i*37)%90))
+				if i == 0 && longID > 0 {
+					ep = "burst-0-" + strings.Repeat("x", longID)
+				}
 				id := fmt.Sprintf("b%d", i)
 				wg.Add(1)
 				go func() {
